@@ -1,21 +1,415 @@
+// luaverif: repository-specific static analyser deciding structural necessary
+// conditions of the golua properties in /verif/properties.jsonl. It never runs
+// golua code. See /verif/DESIGN.md.
 package main
 
 import (
+	"encoding/json"
+	"flag"
 	"fmt"
-	"golang.org/x/tools/go/packages"
-	"golang.org/x/tools/go/ssa"
-	"golang.org/x/tools/go/ssa/ssautil"
-	"golang.org/x/tools/go/callgraph/vta"
-	"golang.org/x/tools/go/callgraph/cha"
-	_ "golang.org/x/tools/go/cfg"
+	"os"
+	"os/exec"
+	"path/filepath"
+	"runtime/debug"
+	"sort"
+	"strconv"
+	"strings"
+	"sync"
+	"time"
 )
 
+type Ctx struct {
+	Tier string
+	P    *Program
+	reg  *RegTable
+}
+
+type ruleFn func(c *Ctx) *RuleResult
+
+type ruleSpec struct {
+	Name string
+	Fn   ruleFn
+	// AllConfigs: in the thorough tier, run under every build configuration.
+	AllConfigs bool
+}
+
+type propSpec struct {
+	ID          string
+	Rules       []string
+	Explanation string
+	Assumptions []string
+	NotDecided  string
+}
+
+var ruleTable = map[string]*ruleSpec{}
+
+func registerRule(name string, allConfigs bool, fn ruleFn) {
+	ruleTable[name] = &ruleSpec{Name: name, Fn: fn, AllConfigs: allConfigs}
+}
+
 func main() {
-	cfg := &packages.Config{Mode: packages.LoadAllSyntax, Dir: "/repo"}
-	pkgs, err := packages.Load(cfg, "./...")
-	fmt.Println(len(pkgs), err)
-	prog, _ := ssautil.AllPackages(pkgs, ssa.InstantiateGenerics)
-	prog.Build()
-	g := vta.CallGraph(ssautil.AllFunctions(prog), cha.CallGraph(prog))
-	fmt.Println(len(g.Nodes))
+	if len(os.Args) < 2 {
+		usage()
+	}
+	switch os.Args[1] {
+	case "check":
+		os.Exit(cmdCheck(os.Args[2:]))
+	case "rules":
+		os.Exit(cmdRules(os.Args[2:]))
+	case "list":
+		ids := []string{}
+		for id := range propTable {
+			ids = append(ids, id)
+		}
+		sort.Strings(ids)
+		for _, id := range ids {
+			fmt.Println(id, strings.Join(propTable[id].Rules, ","))
+		}
+	default:
+		usage()
+	}
+}
+
+func usage() {
+	fmt.Fprintln(os.Stderr, "usage: luaverif check <Cxx> [--tier quick|thorough]\n       luaverif rules <r1,r2,..> [--config name] [--tier t]   (prints JSON)\n       luaverif list")
+	os.Exit(2)
+}
+
+// runRules loads the repo under cfg and runs the named rules in-process. A
+// panic inside a rule marks it broken (never a pass).
+func runRules(cfg BuildConfig, tier string, names []string) ([]*RuleResult, error) {
+	p, err := Load(cfg, true)
+	if err != nil {
+		return nil, err
+	}
+	ctx := &Ctx{Tier: tier, P: p}
+	var out []*RuleResult
+	for _, n := range names {
+		spec := ruleTable[n]
+		if spec == nil {
+			return nil, fmt.Errorf("unknown rule %s", n)
+		}
+		out = append(out, safeRun(ctx, spec))
+	}
+	return out, nil
+}
+
+func safeRun(ctx *Ctx, spec *ruleSpec) (res *RuleResult) {
+	defer func() {
+		if r := recover(); r != nil {
+			res = newResult(spec.Name, "")
+			res.broken("checker panic in rule %s: %v\n%s", spec.Name, r, debug.Stack())
+		}
+	}()
+	res = spec.Fn(ctx)
+	if res == nil {
+		res = newResult(spec.Name, "")
+		res.broken("rule returned nothing")
+	}
+	return res
+}
+
+func cmdRules(args []string) int {
+	fs := flag.NewFlagSet("rules", flag.ExitOnError)
+	cfgName := fs.String("config", "default", "build configuration")
+	tier := fs.String("tier", "quick", "tier")
+	if len(args) < 1 {
+		usage()
+	}
+	names := strings.Split(args[0], ",")
+	fs.Parse(args[1:])
+	cfg, ok := configByName(*cfgName)
+	if !ok {
+		fmt.Fprintln(os.Stderr, "unknown config", *cfgName)
+		return 2
+	}
+	res, err := runRules(cfg, *tier, names)
+	if err != nil {
+		// a load failure under this configuration is itself a result
+		rr := newResult("LOAD", "the repository type-checks under build configuration "+cfg.Name)
+		rr.broken("%v", err)
+		res = []*RuleResult{rr}
+	}
+	for _, r := range res {
+		for i := range r.Findings {
+			r.Findings[i].Config = cfg.Name
+		}
+	}
+	json.NewEncoder(os.Stdout).Encode(res)
+	return 0
+}
+
+func cmdCheck(args []string) int {
+	if len(args) < 1 {
+		usage()
+	}
+	id := args[0]
+	fs := flag.NewFlagSet("check", flag.ExitOnError)
+	tierFlag := fs.String("tier", "", "quick|thorough")
+	fs.Parse(args[1:])
+	tier := *tierFlag
+	if tier == "" {
+		tier = os.Getenv("VERIF_TIER")
+	}
+	if tier != "thorough" {
+		tier = "quick"
+	}
+	seed, _ := strconv.Atoi(os.Getenv("VERIF_SEED"))
+	spec := propTable[id]
+	if spec == nil {
+		fmt.Fprintf(os.Stderr, "no check for property %s\n", id)
+		return 2
+	}
+	start := time.Now()
+	evPath := filepath.Join(verifDir(), "evidence", id+".json")
+	os.Remove(evPath)
+	vdir := filepath.Join(verifDir(), "evidence", "violations")
+	if old, _ := filepath.Glob(filepath.Join(vdir, id+"-*.json")); len(old) > 0 {
+		for _, o := range old {
+			os.Remove(o)
+		}
+	}
+
+	var results []*RuleResult
+	var configsRun []string
+	if tier == "quick" {
+		cfg := allConfigs[0]
+		res, err := runRules(cfg, tier, spec.Rules)
+		if err != nil {
+			fmt.Printf("CHECK-BROKEN property=%s: %v\n", id, err)
+			return 2
+		}
+		results = res
+		configsRun = []string{cfg.Name}
+	} else {
+		// thorough: every configuration in its own subprocess (memory), merged.
+		var allCfgRules, defOnly []string
+		for _, n := range spec.Rules {
+			if ruleTable[n].AllConfigs {
+				allCfgRules = append(allCfgRules, n)
+			} else {
+				defOnly = append(defOnly, n)
+			}
+		}
+		type job struct {
+			cfg   BuildConfig
+			rules []string
+			out   []*RuleResult
+			err   error
+		}
+		var jobs []*job
+		jobs = append(jobs, &job{cfg: allConfigs[0], rules: spec.Rules})
+		if len(allCfgRules) > 0 {
+			for _, c := range allConfigs[1:] {
+				jobs = append(jobs, &job{cfg: c, rules: allCfgRules})
+			}
+		}
+		_ = defOnly
+		self, _ := os.Executable()
+		var wg sync.WaitGroup
+		sem := make(chan struct{}, 4)
+		for _, j := range jobs {
+			wg.Add(1)
+			go func(j *job) {
+				defer wg.Done()
+				sem <- struct{}{}
+				defer func() { <-sem }()
+				cmd := exec.Command(self, "rules", strings.Join(j.rules, ","), "--config", j.cfg.Name, "--tier", tier)
+				cmd.Stderr = os.Stderr
+				b, err := cmd.Output()
+				if err != nil {
+					j.err = fmt.Errorf("subprocess for config %s: %v", j.cfg.Name, err)
+					return
+				}
+				j.err = json.Unmarshal(b, &j.out)
+			}(j)
+		}
+		wg.Wait()
+		merged := map[string]*RuleResult{}
+		var order []string
+		for _, j := range jobs {
+			configsRun = append(configsRun, j.cfg.Name)
+			if j.err != nil {
+				fmt.Printf("CHECK-BROKEN property=%s: %v\n", id, j.err)
+				return 2
+			}
+			for _, r := range j.out {
+				m := merged[r.Rule]
+				if m == nil {
+					merged[r.Rule] = r
+					order = append(order, r.Rule)
+					if j.cfg.Name != "default" {
+						for i := range r.Broken {
+							r.Broken[i] = "[" + j.cfg.Name + "] " + r.Broken[i]
+						}
+					}
+					continue
+				}
+				m.Obligations += r.Obligations
+				m.Discharged += r.Discharged
+				for k, v := range r.Counters {
+					m.Counters[j.cfg.Name+":"+k] = v
+				}
+				seen := map[string]bool{}
+				for _, f := range m.Findings {
+					seen[f.Key] = true
+				}
+				for _, f := range r.Findings {
+					if !seen[f.Key] {
+						m.Findings = append(m.Findings, f)
+					}
+				}
+				for _, b := range r.Broken {
+					m.Broken = append(m.Broken, "["+j.cfg.Name+"] "+b)
+				}
+			}
+		}
+		for _, n := range order {
+			results = append(results, merged[n])
+		}
+	}
+
+	known, err := loadKnown()
+	if err != nil {
+		fmt.Printf("CHECK-BROKEN property=%s: %v\n", id, err)
+		return 2
+	}
+	knownKeys := map[string]knownEntry{}
+	for _, k := range known {
+		if k.Kind == "known" && k.Property == id {
+			knownKeys[k.Key] = k
+		}
+	}
+
+	var broken []string
+	var unlisted, listed []Finding
+	obligations, discharged := 0, 0
+	var samples []interface{}
+	ruleDetails := []interface{}{}
+	var ruleTexts []string
+	for _, r := range results {
+		obligations += r.Obligations
+		discharged += r.Discharged
+		for _, b := range r.Broken {
+			broken = append(broken, r.Rule+": "+b)
+		}
+		sortFindings(r.Findings)
+		for _, f := range r.Findings {
+			if _, ok := knownKeys[f.Key]; ok {
+				listed = append(listed, f)
+			} else {
+				unlisted = append(unlisted, f)
+			}
+		}
+		for i, s := range r.Samples {
+			if i < 4 {
+				samples = append(samples, r.Rule+": "+s)
+			}
+		}
+		ruleTexts = append(ruleTexts, r.Rule+": "+r.Text)
+		ruleDetails = append(ruleDetails, map[string]interface{}{
+			"rule": r.Rule, "text": r.Text, "analysed": r.Counters, "obligations": r.Obligations,
+			"discharged": r.Discharged, "violated_keys": findingKeys(r.Findings), "notes": r.Notes,
+			"tables_applied": r.Tables, "samples": r.Samples,
+		})
+	}
+	// known findings that no longer fire are reported (not fatal): the file
+	// should then be updated to a fixed: entry.
+	firing := map[string]bool{}
+	for _, f := range listed {
+		firing[f.Key] = true
+	}
+	var stale []string
+	for k := range knownKeys {
+		if !firing[k] {
+			stale = append(stale, k)
+		}
+	}
+	sort.Strings(stale)
+
+	for _, b := range broken {
+		fmt.Printf("CHECK-BROKEN property=%s %s\n", id, b)
+	}
+	printedKnown := map[string]bool{}
+	for _, f := range listed {
+		if printedKnown[f.Key] {
+			continue
+		}
+		printedKnown[f.Key] = true
+		fmt.Printf("KNOWN-FINDING: property=%s %s [%s at %s] %s\n", id, knownKeys[f.Key].Text, f.Key, f.Pos, f.Msg)
+	}
+	for _, s := range stale {
+		fmt.Printf("NOTE property=%s known finding no longer reported (repaired?): %s\n", id, s)
+	}
+	for i, f := range unlisted {
+		path := filepath.Join(vdir, fmt.Sprintf("%s-%d.json", id, i+1))
+		writeJSON(path, map[string]interface{}{
+			"property": id, "rule": f.Rule, "key": f.Key, "pos": f.Pos, "message": f.Msg, "path": f.Path,
+			"config": f.Config, "rule_text": textOf(results, f.Rule),
+			"replay": fmt.Sprintf("/verif/bin/luaverif check %s   # re-analyses /repo; this finding is keyed %q", id, f.Key),
+		})
+		fmt.Printf("%s: %s: %s\n", f.Pos, f.Key, f.Msg)
+		for _, h := range f.Path {
+			fmt.Printf("    %s\n", h)
+		}
+		fmt.Printf("VIOLATION property=%s replay=%s\n", id, path)
+	}
+
+	if samples == nil {
+		samples = []interface{}{"(no obligations)"}
+	}
+	ev := evidence{
+		PropertyID: id, Tier: tier, Seed: seed, Level: "other",
+		Coverage: map[string]interface{}{
+			"explanation": spec.Explanation + " NOT decided by this check: " + spec.NotDecided,
+			"obligations": obligations, "discharged": discharged,
+			"samples":       samples,
+			"rule":          strings.Join(ruleTexts, " || "),
+			"checker_cmd":   "/verif/bin/luaverif check " + id + " --tier " + tier,
+			"trusted_base":  []string{"Go type checker (go/types)", "golang.org/x/tools v0.29.0 go/packages, go/ssa, dominators, VTA+CHA call graph as an over-approximation of calls", "frozen tables compiled into the checker (/verif/checker/tables.go), each entry confirmed by reading"},
+			"configurations": configsRun,
+			"rules":         ruleDetails,
+			"known_findings_reported": len(printedKnown),
+			"unlisted_violations":     len(unlisted),
+			"broken":                  broken,
+			"exhaustive":              true,
+		},
+		Assumptions: spec.Assumptions,
+		WallS:       time.Since(start).Seconds(),
+		Violations:  len(unlisted),
+	}
+	if err := writeJSON(evPath, ev); err != nil {
+		fmt.Printf("CHECK-BROKEN property=%s cannot write evidence: %v\n", id, err)
+		return 2
+	}
+	fmt.Printf("property=%s tier=%s configs=%d rules=%d obligations=%d discharged=%d known=%d violations=%d broken=%d wall=%.1fs\n",
+		id, tier, len(configsRun), len(results), obligations, discharged, len(printedKnown), len(unlisted), len(broken), time.Since(start).Seconds())
+	if len(broken) > 0 {
+		return 2
+	}
+	if len(unlisted) > 0 {
+		return 1
+	}
+	return 0
+}
+
+func findingKeys(fs []Finding) []string {
+	out := []string{}
+	seen := map[string]bool{}
+	for _, f := range fs {
+		if !seen[f.Key] {
+			seen[f.Key] = true
+			out = append(out, f.Key)
+		}
+	}
+	return out
+}
+
+func textOf(rs []*RuleResult, rule string) string {
+	for _, r := range rs {
+		if r.Rule == rule {
+			return r.Text
+		}
+	}
+	return ""
 }
